@@ -26,7 +26,7 @@ RULES = RuleSet("C17", "§3 C17",
                              "'no file that was not read': libclang reports inclusion directives of skipped regions too",
                              "environment variables read by dependencies (clang-sys: LIBCLANG_PATH, LLVM_CONFIG_PATH) — "
                              "outside crate `bindgen`, announced by build.rs only",
-                             "make-compatibility of `#`, `$`, `:` in file names (escape handles space and backslash only)"])
+                             "make-compatibility of `:`, `%`, `;` and of a backslash that is not followed by a space (every backslash is doubled, which is what the crate's own unit test pins; R17.3 decides space, backslash, `$`, `#`)"])
 
 CB_TRAIT = "callbacks::ParseCallbacks"
 CTX = "ir::context::BindgenContext"
